@@ -445,6 +445,10 @@ func CDSRegion2fromGFF(fs []gff.Feature, refSeqDegapped string) (Region, error) 
 	} else {
 		r.Name = ""
 	}
+	// GFF3 does not fix the order of the rows of one feature (ascending, or in the order of transcription, which is
+	// descending on the minus strand): walk them by genomic start
+	fs = append([]gff.Feature{}, fs...)
+	sort.SliceStable(fs, func(i, j int) bool { return fs[i].Start < fs[j].Start })
 	pos := make([]int, 0)
 	switch fs[0].Strand {
 	case "+":
